@@ -389,7 +389,7 @@ def check_leaks(ctx, prog):
     reach = cg.reach(roots)
     ctx.require(len(roots) >= 500 and len(reach) >= 900, "R3.leak: API roots / reachable functions: %d / %d" % (len(roots), len(reach)))
     sub = _Sub(ctx)
-    n, summaries, skipped, extra = r3leak.check(sub, prog, "R3.leak", lambda fn: fn.name in reach, budget=20000,
+    n, summaries, skipped, extra = r3leak.check(sub, prog, "R3.leak", lambda fn: fn.name in reach, budget=32000,
                                                   known_skips=LEAK_BUDGET_SKIPS)
     ctx.require(not extra, "R3.leak: %s exceed(s) the state budget and would be silently excluded" % ", ".join(extra))
     ctx.require(n >= 80, "R3.leak: only %d allocating functions analysed" % n)
